@@ -948,6 +948,63 @@ static void nest_eval(uint64_t idx, void *ctx) {
     free_items(w, n);
 }
 
+/* ------------------------------------------------------------------ section: deepskip --------------------- */
+/* "Skipping a whole data item advances past exactly that item however deeply it nests": items nested 1000 / 100000 /
+ * 300000 levels deep in six shapes, written with the real encoder, followed by a sentinel; the skip must consume exactly
+ * the item and leave the sentinel (a recursion per level dies of stack exhaustion here; added after a seeded change that
+ * re-introduced recursion for tags only) */
+static const unsigned DEEP_N[3] = {1000, 100000, 300000};
+static const char *DEEP_SHAPE[6] = {"tag chain", "tag + array(1) alternating", "array(1) chain", "indefinite-array chain", "map(1) chain (nested value)", "tag + indefinite map alternating"};
+static uint64_t deepskip_total(void) { return 6 * 3; }
+static void deepskip_eval(uint64_t idx, void *ctx) {
+    (void)ctx;
+    BEE_ITEM(idx);
+    unsigned shape = (unsigned)(idx % 6), depth = DEEP_N[idx / 6];
+    V_COUNT("evaluations", 1);
+    V_COUNT("nontrivial", 1);
+    struct aws_cbor_encoder *enc = aws_cbor_encoder_new(A);
+    for (unsigned i = 0; i < depth; ++i) {
+        switch (shape) {
+            case 0: aws_cbor_encoder_write_tag(enc, 100 + (i & 7)); break;
+            case 1:
+                if (i & 1) aws_cbor_encoder_write_array_start(enc, 1);
+                else aws_cbor_encoder_write_tag(enc, 55799);
+                break;
+            case 2: aws_cbor_encoder_write_array_start(enc, 1); break;
+            case 3: aws_cbor_encoder_write_indef_array_start(enc); break;
+            case 4:
+                aws_cbor_encoder_write_map_start(enc, 1);
+                aws_cbor_encoder_write_uint(enc, i & 15); /* key */
+                break;
+            default:
+                if (i & 1) {
+                    aws_cbor_encoder_write_indef_map_start(enc);
+                    aws_cbor_encoder_write_uint(enc, 7);
+                } else
+                    aws_cbor_encoder_write_tag(enc, 1);
+                break;
+        }
+    }
+    aws_cbor_encoder_write_uint(enc, 5); /* innermost item */
+    for (unsigned i = depth; i-- > 0;)
+        if (shape == 3 || (shape == 5 && (i & 1))) aws_cbor_encoder_write_break(enc);
+    aws_cbor_encoder_write_uint(enc, 99); /* sentinel behind the item */
+    struct aws_byte_cursor enc_bytes = aws_cbor_encoder_get_encoded_data(enc);
+    uint8_t *blk = bee_block(enc_bytes.ptr, enc_bytes.len);
+    struct aws_cbor_decoder *dec = aws_cbor_decoder_new(A, aws_byte_cursor_from_array(blk, enc_bytes.len));
+    int rc = aws_cbor_decoder_consume_next_whole_data_item(dec);
+    BEE_CHECK(rc == AWS_OP_SUCCESS, "deep-skip-fails", "%s, %u levels: consume_next_whole_data_item failed: %s", DEEP_SHAPE[shape], depth, aws_error_name(aws_last_error()));
+    if (rc == AWS_OP_SUCCESS) {
+        uint64_t v = 0;
+        size_t rem = aws_cbor_decoder_get_remaining_length(dec);
+        BEE_CHECK(rem == 2, "deep-skip-extent", "%s, %u levels: %zu bytes remain after the skip, the sentinel behind the item has 2", DEEP_SHAPE[shape], depth, rem);
+        BEE_CHECK(aws_cbor_decoder_pop_next_unsigned_int_val(dec, &v) == AWS_OP_SUCCESS && v == 99, "deep-skip-extent", "%s, %u levels: the item after the skipped one does not read back as the sentinel", DEEP_SHAPE[shape], depth);
+    }
+    aws_cbor_decoder_destroy(dec);
+    free(blk);
+    aws_cbor_encoder_destroy(enc);
+}
+
 int main(int argc, char **argv) {
     v_init(argc, argv);
     for (int i = 1; i < argc; ++i)
@@ -966,5 +1023,6 @@ int main(int argc, char **argv) {
     bee_register("seq", seq_total, seq_eval, 10);
     bee_register("fill", fill_total, fill_eval, 10);
     bee_register("nest", nest_total, nest_eval, 10);
+    bee_register("deepskip", deepskip_total, deepskip_eval, 60);
     return bee_main(argc, argv);
 }
